@@ -318,6 +318,21 @@ def brute(rng, tier):
                         evals += 1
                         if float(e_.detach().abs().max()) > 64 * torch.finfo(cdt).eps * 640:
                             fails.append(dict(clause='reprojerr_zero_for_projected_pixels', signature=f'{red}/{track}/{str(cdt).split(".")[-1]}', err=float(e_.detach().abs().max())))
+        # B camera poses against ONE unbatched cloud of N points - documented result (B, N, 2): every camera sees every point, also when B == N
+        if t % 4 == 1:
+            for (Bc, Nc) in ((3, 5), (5, 5), (4, 4), (1, 1)):
+                cpt = torch.randn(Nc, 3, dtype=torch.float64, generator=g) + torch.tensor([0.0, 0.0, 7.0], dtype=torch.float64)
+                Kc = torch.tensor([[500.0, 0, 320.0], [0, 480.0, 240.0], [0, 0, 1.0]], dtype=torch.float64); Xs = pp.randn_SE3(Bc, sigma=0.1, dtype=torch.float64)
+                try:
+                    pxs = pp.point2pixel(cpt, Kc, Xs); evals += 1
+                    want = torch.stack([pp.point2pixel(cpt, Kc, Xs[b]) for b in range(Bc)], 0)
+                    if tuple(pxs.shape) != (Bc, Nc, 2) or not torch.allclose(pxs, want, atol=1e-9):
+                        fails.append(dict(clause='point2pixel_every_pose_against_every_point', signature=f'B={Bc},N={Nc}', got=list(pxs.shape)))
+                    er = pp.reprojerr(cpt, want, Kc, Xs, reduction='norm')
+                    if tuple(er.shape) != (Bc, Nc) or float(er.abs().max()) > 1e-8:
+                        fails.append(dict(clause='reprojerr_zero_for_projected_pixels', signature=f'batched poses B={Bc},N={Nc}', err=float(er.abs().max())))
+                except Exception as ex:
+                    fails.append(dict(clause='point2pixel_raises', signature=f'B={Bc},N={Nc}', error=f'{type(ex).__name__}: {ex}'[:120]))
         # random_filter
         num = rng.randrange(0, n + 1)
         rf = pp.random_filter(pts, num)
